@@ -94,7 +94,7 @@ const (
 	VOK       = ""
 	VDeadlock = "deadlock"
 	VPanic    = "panic"
-	VHorizon  = "horizon"
+	VHorizon  = "livelock"
 	VFail     = "fail"
 	VDiverge  = "diverge"
 )
@@ -582,15 +582,19 @@ func (x *Exec) schedule(self *Thread) {
 		x.StepHook()
 	}
 	if x.Steps > x.Horizon {
+		// A closed scenario that is still taking steps after the horizon (an order of magnitude above the longest
+		// terminating execution) is spinning: a livelock. The unfinished threads are case context.
+		detail := fmt.Sprintf("the execution did not terminate (livelock): still taking scheduling steps after the horizon of %d | %s", x.Horizon, x.describeUnfinished())
 		if self == nil {
 			if x.Verdict == "" {
 				x.Verdict = VHorizon
+				x.Detail = detail
 			}
 			x.beginAbort()
 			x.give(-1)
 			return
 		}
-		x.fail(VHorizon, fmt.Sprintf("more than %d steps", x.Horizon))
+		x.fail(VHorizon, detail)
 	}
 	en := x.enabledList(self)
 	if len(en) > x.MaxEn {
@@ -659,6 +663,19 @@ func (x *Exec) schedule(self *Thread) {
 	if self != nil {
 		x.park(self)
 	}
+}
+
+//go:norace
+func (x *Exec) describeUnfinished() string {
+	var b strings.Builder
+	b.WriteString("unfinished: ")
+	for _, t := range x.threads {
+		if t.done {
+			continue
+		}
+		fmt.Fprintf(&b, "[t%d %s at %s %s] ", t.ID, t.Name, t.kind, objString(t.obj))
+	}
+	return b.String()
 }
 
 //go:norace
